@@ -219,8 +219,10 @@ impl GenerationalAtomicStorage {
 #[derive(Debug)]
 pub struct Recency<K> {
     mask: MetricKindMask,
+    // One map per metric kind, like the registry: a counter, a gauge and a histogram registered under
+    // the same key are distinct metrics and must not share a recency entry.
     #[allow(clippy::type_complexity)]
-    inner: Mutex<(Clock, HashMap<K, (Generation, Instant)>)>,
+    inner: Mutex<(Clock, [HashMap<K, (Generation, Instant)>; 3])>,
     idle_timeout: Option<Duration>,
 }
 
@@ -241,7 +243,8 @@ where
     /// Refer to the documentation for [`MetricKindMask`](crate::MetricKindMask) for more
     /// information on defining a metric kind mask.
     pub fn new(clock: Clock, mask: MetricKindMask, idle_timeout: Option<Duration>) -> Self {
-        Recency { mask, inner: Mutex::new((clock, HashMap::new())), idle_timeout }
+        let entries = [HashMap::new(), HashMap::new(), HashMap::new()];
+        Recency { mask, inner: Mutex::new((clock, entries)), idle_timeout }
     }
 
     /// Checks if the given counter should be stored, based on its known recency.
@@ -314,7 +317,12 @@ where
         if let Some(idle_timeout) = self.idle_timeout {
             if self.mask.matches(kind) {
                 let mut guard = self.inner.lock().unwrap_or_else(PoisonError::into_inner);
-                let (clock, entries) = guard.deref_mut();
+                let (clock, entries_by_kind) = guard.deref_mut();
+                let entries = &mut entries_by_kind[match kind {
+                    MetricKind::Counter => 0,
+                    MetricKind::Gauge => 1,
+                    MetricKind::Histogram => 2,
+                }];
 
                 let now = clock.now();
                 let deleted = if let Some((last_gen, last_update)) = entries.get_mut(key) {
